@@ -10,6 +10,13 @@ Oracle, per instance configuration:
     the instance); for every packing P of power-of-two mcpu jobs with sum <= cores*1000: for every resource name,
     sum_{j in P} quantity_j <= W[name], and no job is billed a resource the worker does not have;
   * the job that takes the whole worker (pool: the grant for cores*1000 mcpu; job-private: the machine) is billed exactly W;
+  * ABSOLUTE whole worker A: what the machine that was procured consists of, computed from the creation parameters only (machine
+    type table: cores, memory, number of accelerators; the boot / data disk sizes asked for, azure sizes rounded up to the next
+    managed-disk size; one VM; one IP) in the billing units (mcpu, MiB, 1024ths) and never through quantified_resources: both the
+    driver's record of the instance W and the bill of the job that takes the whole worker (job-private: the request the job-private
+    manager really issues, machine_type_to_cores_and_memory_bytes) must equal A per resource kind - no kind missing, none extra.
+    This is the only oracle that sees a defect which scales W and the job alike (a truncated worker fraction on the 12/20/24/48/72/96
+    core machine types that only job-private instances can have, an accelerator count dropped, MB for MiB).
   * c2 = from_dict(json(to_dict(c))): identical quantified resources for every probe request (incl. extra storage), same cores /
     job_private / worker type, and to_dict(c2) == to_dict(c).
 """
@@ -24,7 +31,8 @@ RULE = (
     '(3 gcp zones incl. one without regional prices, 2 azure regions); packings: for <= 8 (thorough: 16) cores all multisets of {250*2^k} that fit '
     '(exhaustive), for larger workers the homogeneous full packings of every size, whole-worker, greedy mixed and seeded random multisets '
     '(capped); probes for the round trip: every packable size x extra storage {0,1,10,375,2048} GiB. Distinct by (cloud, machine type, '
-    'job_private, disk option, preemptible, region, packing shape).'
+    'job_private, disk option, preemptible, region, packing shape). Every configuration is also compared with the machine it procures '
+    '(absolute whole worker from the creation parameters; incl. the 12/20/24/48/72/96-core and multi-accelerator job-private machine types).'
 )
 ASSUMPTIONS = [
     'pool workers have power-of-two cores <= 256 (the code asserts it; the non-power-of-two pool sizes the config page also offers are a C12 finding and are counted, not billed)',
@@ -35,7 +43,10 @@ TRUSTED_BASE = ['fake ProductVersions table in which every product has version 1
 FORBIDDEN_STUBS = ('aiomysql', 'pymysql', 'google', 'azure', 'kubernetes_asyncio', 'googlecloudprofiler')  # imported only, never called
 SHARDS = {'quick': 2, 'thorough': 8}
 FLOORS = {'configs': 400, 'packings_checked': 20000, 'roundtrip_probes': 5000, 'whole_worker_checks': 400, 'machine_types_gcp': 55, 'machine_types_azure': 35,
-          'resource_types': 14}
+          'resource_types': 14,
+          # absolute whole-worker oracle (both clouds together; a shard sees one cloud)
+          'absolute_whole_worker_checks': 2200, 'absolute_checks_non_pow2_cores': 400, 'absolute_checks_multi_accelerator': 180,
+          'absolute_quantities_compared': 27000, 'non_pow2_core_counts': 5, 'absolute_resource_kinds': 12}
 
 GCP_LOCATIONS = ['us-central1-a', 'us-east1-b', 'europe-west4-c']
 AZURE_LOCATIONS = ['eastus', 'westus2']
@@ -60,6 +71,54 @@ def all_multisets(sizes, budget):
     return rec(0, budget)
 
 
+AZURE_MANAGED_DISK_SIZES_GIB = [4 << i for i in range(14)]  # 4 GiB .. 32 TiB (azure managed-disk price list), independent of the repo's table
+GCP_LOCAL_SSD_GIB = 375
+
+
+def resource_kind(name):
+    """resource name -> kind (the product without region / preemptibility / disk size / version)"""
+    parts = name.split('/')
+    if parts[0] == 'az':
+        if parts[1] == 'disk':
+            return f'az/disk/{parts[2][0]}'  # E (boot) or P (data)
+        return f'az/{parts[1]}'
+    if parts[0] == 'disk':
+        return f'disk/{parts[1]}'
+    return parts[0]
+
+
+def by_kind(by_name):
+    d = {}
+    for name, q in by_name.items():
+        k = resource_kind(name)
+        d[k] = d.get(k, 0) + q
+    return d
+
+
+def absolute_whole_worker(cloud, cores, memory_bytes, n_accelerators, boot_gib, data_gib, local_ssd):
+    """the machine that is procured, in billing units; computed without the billing code"""
+    MiB = 1024 * 1024
+    if cloud == 'gcp':
+        a = {'compute': cores * 1000, 'memory': memory_bytes // MiB, 'ip-fee': 1024, 'service-fee': cores * 1000,
+             'gcp-support-logs-specs-and-firewall-fees': cores * 1000}
+        pd = boot_gib * 1024
+        if local_ssd:
+            a['disk/local-ssd'] = data_gib * 1024
+        else:
+            pd += data_gib * 1024
+        a['disk/pd-ssd'] = pd
+        if n_accelerators:
+            a['accelerator'] = n_accelerators * 1024
+        return a
+
+    def managed(gib):
+        return next(s for s in AZURE_MANAGED_DISK_SIZES_GIB if s >= gib)
+    a = {'az/vm': 1024, 'az/ip-fee': 1024, 'az/service-fee': cores * 1000, 'az/disk/E': managed(boot_gib) * 1024}
+    if not local_ssd:
+        a['az/disk/P'] = managed(data_gib) * 1024
+    return a
+
+
 def run(ctx):
     from vf import gen_batch_pure as g
 
@@ -72,6 +131,7 @@ def run(ctx):
     from batch.cloud.azure.resource_utils import azure_local_ssd_size
     from batch.cloud.gcp.instance_config import GCPSlimInstanceConfig
     from batch.cloud.gcp.resource_utils import MACHINE_TYPE_TO_PARTS as GCP_PARTS
+    from batch.cloud.resource_utils import machine_type_to_cores_and_memory_bytes
     from batch.cloud.utils import instance_config_from_config_dict
     from batch.inst_coll_config import instance_config_from_pool_config
 
@@ -185,6 +245,50 @@ def run(ctx):
             key = 'whole/memory-of-full-size-job-differs-from-instance' if any(k.startswith('memory') for k in diff) else 'whole/full-size-job-not-billed-whole-worker'
             ctx.violation(key, f'a {top} mcpu job on a {cores}-core worker is billed {diff} (job, worker)', w)
 
+        # ---- the whole worker in absolute terms (never through quantified_resources) ---------------------------
+        parts = (GCP_PARTS if c.cloud == 'gcp' else AZ_PARTS)[c._machine_type]
+        gpu_config = getattr(parts, 'gpu_config', None)
+        n_acc = gpu_config.num_gpus if gpu_config is not None else 0
+        if pool is None:
+            data_gib = descr['data_disk_size_gb']
+        elif descr['local_ssd']:
+            data_gib = GCP_LOCAL_SSD_GIB if c.cloud == 'gcp' else None  # azure: the temp disk is part of the VM price
+        else:
+            data_gib = descr['ext_disk_gb']
+        A = absolute_whole_worker(c.cloud, parts.cores, parts.memory, n_acc, descr['boot_disk_size_gb'], data_gib, descr['local_ssd'])
+        if pool is None:
+            jp_cores, jp_mem = machine_type_to_cores_and_memory_bytes(c.cloud, c._machine_type)  # JobPrivateInstanceManagerConfig.convert_requests_to_resources
+            jl = quantify(c, (jp_cores * 1000, jp_mem, 0), w)
+            whole_job_bill = agg(jl) if jl is not None else None
+        else:
+            whole_job_bill = q_by_size[top]
+        ctx.count('absolute_whole_worker_checks')
+        if not g.is_pow2(cores):
+            ctx.count('absolute_checks_non_pow2_cores')
+            ctx.seen('non_pow2_core_counts', cores)
+        if n_acc > 1:
+            ctx.count('absolute_checks_multi_accelerator')
+        for k in A:
+            ctx.seen('absolute_resource_kinds', k)
+        for what, bill in (('whole-worker-job', whole_job_bill), ('instance-total', W)):
+            if bill is None:
+                continue
+            B = by_kind(bill)
+            ctx.count('absolute_quantities_compared', len(A))
+            for k in sorted(set(A) | set(B)):
+                got, want = B.get(k), A.get(k)
+                if got == want:
+                    continue
+                kk = k.replace('/', '-')
+                if got is None:
+                    key, msg = f'absolute/{what}-lacks-{kk}', f'{k} is part of the machine ({want}) but not billed'
+                elif want is None:
+                    key, msg = f'absolute/{what}-billed-resource-the-machine-lacks', f'{k} billed {got} but the machine has none'
+                else:
+                    key = f"absolute/{what}-{'under' if got < want else 'over'}-billed-{kk}"
+                    msg = f'{k} billed {got}, the machine has {want} ({got * 1024 // want}/1024)'
+                ctx.violation(key, f'{what} of a {cores}-core {c._machine_type} (job_private={c.job_private}): {msg}', dict(w, absolute_whole_worker=A, billed_by_kind=B))
+
         # ---- packings -------------------------------------------------------------------------------
         svals = [s for s, _ in sizes]
         budget = cores * 1000
@@ -292,4 +396,12 @@ Breaks applied one at a time in a scratch worktree (VERIF_REPO=/tmp/scratch-bp .
                                                                           caught: roundtrip/reloaded-config-raises
   own     n1 highcpu 921 MiB per core (full-size job memory != machine)    caught: billing/raises (the code's own MiB assertion)
   own     static disk billed at least 10 GiB per job                       caught: packing/over-billed-disk, packing/over-billed-az-disk
+Absolute whole-worker oracle (added after seeded/C13-agent4; all of these scale the instance total and the whole-worker job alike,
+so the relative oracle `job == W` cannot see them):
+  seed    per-core share truncated first: (1024 // cores) * mcpu // 1000 (12/20/24/48/72/96-core job-private machines only)
+                                                                          caught: absolute/{instance-total,whole-worker-job}-under-billed-{accelerator,az-disk-E,az-disk-P,az-ip-fee,az-vm,disk-pd-ssd,ip-fee}
+  own     GCPAcceleratorResource.to_quantified_resource drops `self.number *` caught: absolute/*-under-billed-accelerator
+  own     AzureStaticSizedDiskResource.create keeps the requested size instead of the managed-disk size
+                                                                          caught: absolute/*-under-billed-az-disk-E, -az-disk-P
+  own     MemoryResourceMixin bills memory_in_bytes // 1000 // 1000       caught: absolute/*-over-billed-memory
 """
